@@ -17,22 +17,38 @@ Setter(q, req, scalar, sel) ==
   /\ last.op = "init"
   /\ cmds' = SetCmds(q, req, scalar, sel) /\ mem' = mem /\ nops' = nops
   /\ last' = [op |-> "set", q |-> q, req |-> req, scalar |-> scalar, sel |-> sel, warn |-> SetWarn(q, req, scalar, sel)]
+SetFlag(verb, val, sel) ==
+  /\ last.op = "init"
+  /\ cmds' = FlagCmds(verb, val, sel) /\ mem' = mem /\ nops' = nops
+  /\ last' = [op |-> "flag", verb |-> verb, val |-> val, sel |-> sel, warn |-> ChWarn(sel)]
 Pattern(n, phase) == [i \in 1..n |-> IF ((i + phase) % 3 = 0) \/ ((i + phase) % 7 = 1) THEN 1 ELSE 0]
 DataLens == {1, Chunk - 1, Chunk, Chunk + 1, 2 * Chunk, 2 * Chunk + 1, MaxMem, MaxMem + 2}
 Addrs == {1, 2, Chunk, Chunk + 1, MaxMem - 1, MaxMem}
 SetData(n, phase, addr, sel) ==
   LET c == DataCmds(Pattern(n, phase), addr, sel) IN
-  /\ nops < MaxOps /\ nops' = nops + 1 /\ last.op # "set"
+  /\ nops < MaxOps /\ nops' = nops + 1 /\ last.op \in {"init", "set_data", "get_data"}
   /\ cmds' = c /\ mem' = Store(mem, c)
   /\ last' = [op |-> "set_data", bits |-> Pattern(n, phase), addr |-> addr, sel |-> sel,
               warn |-> (ChWarn(sel) \/ n > MaxMem - addr + 1)]
 GetData(size, addr, sel) ==
   LET chs == Channels(sel) IN
-  /\ nops < MaxOps /\ nops' = nops + 1 /\ size <= MaxMem - addr + 1 /\ last.op # "set"
+  /\ nops < MaxOps /\ nops' = nops + 1 /\ size <= MaxMem - addr + 1 /\ last.op \in {"init", "set_data", "get_data"}
   /\ cmds' = <<>> /\ mem' = mem
   /\ last' = [op |-> "get_data", size |-> size, addr |-> addr, sel |-> sel, warn |-> ChWarn(sel),
               data |-> [i \in 1..Len(chs) |-> Read(mem, chs[i], addr, size)]]
-Next == \/ \E q \in Quantities : \E v \in ReqVals(q), sel \in Sels : Setter(q, <<v>>, TRUE, sel)
+OptOf(S) == {<<>>} \cup {<<v>> : v \in S}
+Configs == [freq : OptOf({100, 500}), plen : OptOf({8}), amp : OptOf({25}), offs : OptOf({-35}), bsh : OptOf({3}), skew : OptOf({40}),
+            mode : OptOf({0, 1}), order : OptOf({8}), data : OptOf({6})]
+Config(c, sel) ==
+  LET dc == IF ConfigSendsData(c) THEN DataCmds(Pattern(c.data[1], 0), 1, sel) ELSE <<>> IN
+  /\ last.op = "init"
+  /\ cmds' = ConfigSetCmds(c, sel) \o dc /\ mem' = Store(mem, dc) /\ nops' = nops
+  /\ last' = [op |-> "config", c |-> c, sel |-> sel, mustwarn |-> ConfigMustWarn(c, sel),
+              bits |-> IF ConfigSendsData(c) THEN Pattern(c.data[1], 0) ELSE <<>>]
+Next == \/ \E c \in Configs, sel \in {<<>>, <<2>>, <<0, 5>>} : Config(c, sel)
+        \/ \E verb \in FlagVerbs, val \in {0, 1}, sel \in Sels : SetFlag(verb, val, sel)
+        \/ \E val \in {-3, 0, 17}, sel \in {<<>>, <<3>>, <<7>>} : SetFlag("PATT:BSH", val, sel)
+        \/ \E q \in Quantities : \E v \in ReqVals(q), sel \in Sels : Setter(q, <<v>>, TRUE, sel)
         \/ \E q \in Quantities \ {"freq"} : \E v \in ReqVals(q), w \in ReqVals(q), sel \in {<<>>, <<2, 3>>, <<1, 2, 3>>} :
               Setter(q, <<v, w>>, FALSE, sel)
         \/ \E n \in DataLens, ph \in {0, 1}, a \in Addrs, sel \in {<<>>, <<2>>, <<3, 1>>} : SetData(n, ph, a, sel)
@@ -40,6 +56,9 @@ Next == \/ \E q \in Quantities : \E v \in ReqVals(q), sel \in Sels : Setter(q, <
 Spec == Init /\ [][Next]_vars
 \* ---- the property on the model
 EveryCmdInRange == \A i \in 1..Len(cmds) : IF cmds[i].verb = "PATT:DATA" THEN BlockOK(cmds[i]) ELSE CmdOK(cmds[i])
+\* the composite call emits exactly what the individual calls would emit, in the documented order
+ConfigIsComposition == last.op = "config" =>
+   cmds = ConfigSetCmds(last.c, last.sel) \o (IF ConfigSendsData(last.c) THEN DataCmds(last.bits, 1, last.sel) ELSE <<>>)
 RECURSIVE Concat(_, _)
 Concat(blocks, i) == IF i > Len(blocks) THEN <<>> ELSE blocks[i].bits \o Concat(blocks, i + 1)
 ChunkingCorrect == last.op = "set_data" =>
